@@ -1,4 +1,205 @@
-import Sio.Model.Server
+/-
+  C16 — user sessions are private to one client connection and namespace.
+
+  `read_your_write`, `read_stable`: what was saved for (sid, ns) is what `get_session` returns,
+  through every input that is not a session operation or a transport loss.  `private_`: a save on
+  (sid, ns) changes the session of no other (sid', ns') — other transports, and other namespaces
+  of the same transport.  `context_manager`: the `session()` block is get; set key; save.
+  `fresh`: FALSE on the unchanged code for a namespace re-connected on the same transport (the
+  session is keyed by namespace on the engine.io socket and survives a namespace-level
+  disconnect; DESIGN §6 F5): `fresh_witness`; proved under the explicit hypothesis that nothing
+  is stored for (transport, namespace): `fresh_partial`, which holds on every new transport
+  (`fresh_new_transport`).
+-/
+import Sio.Lemmas.ServerSess
 namespace Sio.C16
-theorem placeholder_stub : True := trivial
+open Sio Sio.Server Sio.Rooms
+
+variable {dec : Str → Except Err (Packet × Nat)} {cfg : Cfg}
+
+/-! ### demo: transport A connected to `/` and `/x`, transport B connected to `/` -/
+
+def reg0 : Registry := ⟨fun _ _ => true, fun _ => true, fun _ => false, fun _ _ => false⟩
+def cfg0 : Cfg := ⟨false, none, false, reg0, ⟨fun _ => .accept, fun _ => .ret .none, fun _ => .ok⟩⟩
+def dec0 : Str → Except Err (Packet × Nat)
+  | ['c'] => .ok (⟨CONNECT, none, none, none⟩, 0)
+  | ['x'] => .ok (⟨CONNECT, some ['/', 'x'], none, none⟩, 0)
+  | ['d'] => .ok (⟨DISCONNECT, none, none, none⟩, 0)
+  | _ => .error .valueError
+def tA : Eio := ['A']
+def tB : Eio := ['B']
+def nsRoot : Ns := ['/']
+def nsX : Ns := ['/', 'x']
+def hist0 : List Input :=
+  [.eioConnect tA, .eioConnect tB, .frame tA (.str ['c']), .frame tA (.str ['x']),
+   .frame tB (.str ['c'])]
+def demo0 : Srv := (run dec0 cfg0 {} hist0).1
+theorem demo0_wf : Server.WF demo0 := Server.WF.init.run dec0 cfg0 hist0
+
+/-! ### `read_your_write` -/
+
+/-- `save_session(sid, v, ns)` for a connected session on an open socket stores `v`, and the
+    next `get_session(sid, ns)` returns exactly `v` (and changes nothing). -/
+theorem read_your_write {s : Srv} {sid : Sid} {ns : Ns} {t : Eio}
+    (hs : sessSock s sid ns = some t) (v : J) :
+    step dec cfg s (.saveSession sid ns v) = (sessSet s t ns v, []) ∧
+    step dec cfg (sessSet s t ns v) (.getSession sid ns) = (sessSet s t ns v, [.result v]) := by
+  constructor
+  · rw [step, hs]
+  · rw [step, sessSock_sessSet, hs]
+    simp only [sessGet_sessSet_same]
+
+example : sessSock demo0 (sidName 0) nsRoot = some tA := by decide
+
+/-- … and it keeps returning `v` through every input that is neither a session operation nor a
+    transport loss (frames of any client, emits, room changes, namespace-level disconnects of
+    others, …), as long as the session is still connected on its open socket. -/
+theorem read_stable {s : Srv} (h : Server.WF s) {sid : Sid} {ns : Ns} {t : Eio} {v : J}
+    (hg : sessGet s t ns = some v) (is : List Input) (hi : ∀ i ∈ is, touchesSess i = false)
+    (hs : sessSock (run dec cfg s is).1 sid ns = some t) :
+    step dec cfg (run dec cfg s is).1 (.getSession sid ns) = ((run dec cfg s is).1, [.result v]) := by
+  have hsess : (run dec cfg s is).1.sess = s.sess := by
+    clear hs hg
+    induction is generalizing s with
+    | nil => rw [run_nil]
+    | cons i is ih =>
+      rw [run_cons]
+      rw [ih (h.step dec cfg i) (fun j hj => hi j (List.mem_cons_of_mem _ hj))]
+      exact sess_untouched h (hi i List.mem_cons_self)
+  have hg' : sessGet (run dec cfg s is).1 t ns = some v := by
+    unfold sessGet at hg ⊢; rw [hsess]; exact hg
+  rw [step, hs]
+  simp only [hg']
+
+example : touchesSess (.frame tB (.str ['d'])) = false ∧
+    touchesSess (.apiDisconnect (sidName 2) nsRoot) = false := ⟨rfl, rfl⟩
+
+/-! ### `private_` -/
+
+/-- A save on (sid, ns) does not change what `get_session` returns for any other
+    (sid', ns') — another client, or another namespace of the same client. -/
+theorem private_ {s : Srv} (h : Server.WF s) {sid sid' : Sid} {ns ns' : Ns} {t t' : Eio}
+    (hs : sessSock s sid ns = some t) (hs' : sessSock s sid' ns' = some t')
+    (hne : ¬ (sid' = sid ∧ ns' = ns)) (v : J) :
+    sessGet (step dec cfg s (.saveSession sid ns v)).1 t' ns' = sessGet s t' ns' ∧
+    sessSock (step dec cfg s (.saveSession sid ns v)).1 sid' ns' = some t' := by
+  rw [(read_your_write (dec := dec) (cfg := cfg) hs v).1]
+  exact ⟨sessGet_sessSet_other s v (sessSock_inj h hs hs' hne), by rw [sessSock_sessSet]; exact hs'⟩
+
+-- same transport, other namespace; other transport, same namespace
+example : sessSock demo0 (sidName 1) nsX = some tA ∧ sessSock demo0 (sidName 2) nsRoot = some tB := by
+  decide
+
+/-- hence: after that save, `get_session(sid', ns')` answers exactly as before -/
+theorem private_get {s : Srv} (h : Server.WF s) {sid sid' : Sid} {ns ns' : Ns} {t t' : Eio}
+    (hs : sessSock s sid ns = some t) (hs' : sessSock s sid' ns' = some t')
+    (hne : ¬ (sid' = sid ∧ ns' = ns)) (v : J) :
+    (step dec cfg (step dec cfg s (.saveSession sid ns v)).1 (.getSession sid' ns')).2 =
+      (step dec cfg s (.getSession sid' ns')).2 := by
+  obtain ⟨h1, h2⟩ := private_ (dec := dec) (cfg := cfg) h hs hs' hne v
+  rw [step, step, h2, hs']
+  simp only [h1]
+  cases sessGet s t' ns' <;> rfl
+
+/-! ### `context_manager` -/
+
+/-- what the `session()` block leaves: the dict with `k` set (a non-dict value is left alone) -/
+def blockValue (cur : J) (k : Str) (v : J) : J :=
+  match cur with
+  | .obj kvs => .obj (setKey k v kvs)
+  | other => other
+
+/-- `with sio.session(sid, ns) as d: d[k] = v` is `get_session`, the assignment, `save_session`:
+    same final state, and the value handed back is the saved one. -/
+theorem context_manager {s : Srv} {sid : Sid} {ns : Ns} {t : Eio}
+    (hs : sessSock s sid ns = some t) (k : Str) (v : J) :
+    let cur := (sessGet s t ns).getD (.obj [])
+    (step dec cfg s (.getSession sid ns)).2 = [.result cur] ∧
+    step dec cfg s (.sessionBlock sid ns k v) =
+      ((run dec cfg s [.getSession sid ns, .saveSession sid ns (blockValue cur k v)]).1,
+        [.result (blockValue cur k v)]) := by
+  intro cur
+  have hblock : step dec cfg s (.sessionBlock sid ns k v) =
+      (sessSet s t ns (blockValue cur k v), [.result (blockValue cur k v)]) := by
+    rw [step, hs]
+    simp only [cur, blockValue]
+    cases (sessGet s t ns).getD (.obj []) <;> rfl
+  constructor
+  · rw [step, hs]
+    cases hg : sessGet s t ns with
+    | none => simp [cur, hg]
+    | some x => simp [cur, hg]
+  · rw [hblock, run_cons, run_cons, run_nil]
+    congr 1
+    cases hg : sessGet s t ns with
+    | none =>
+      have h1 : step dec cfg s (.getSession sid ns) = (sessSet s t ns (.obj []), [.result (.obj [])]) := by
+        rw [step, hs]; simp only [hg]
+      rw [h1, step, sessSock_sessSet, hs]
+      exact (sessSet_sessSet s t ns _ _ hg).symm
+    | some x =>
+      have h1 : step dec cfg s (.getSession sid ns) = (s, [.result x]) := by
+        rw [step, hs]; simp only [hg]
+      rw [h1, step, hs]
+
+/-! ### `fresh` -/
+
+/- Full statement (FALSE on the unchanged code):
+     for every history, the first `get_session` of a newly allocated session id returns `{}`.
+   It fails when a namespace is re-connected on the same transport: -/
+
+def histF : List Input :=
+  [.eioConnect tA, .frame tA (.str ['c']), .saveSession (sidName 0) nsRoot (.int 1),
+   .frame tA (.str ['d']), .frame tA (.str ['c']), .getSession (sidName 1) nsRoot]
+
+/-- Negation witness: transport A connects to `/` (session id `s0`), saves `1`, disconnects from
+    the namespace, connects to it again (new session id `s1`): `get_session(s1)` returns the old
+    `1`, not `{}`. -/
+theorem fresh_witness :
+    (run dec0 cfg0 {} histF).2 =
+      [.invoke (.fn nsRoot "connect".toList) [.str (sidName 0)],
+       .send tA (pktConnect nsRoot (sidName 0)),
+       .invoke (.fn nsRoot "disconnect".toList) [.str (sidName 0), .str "client disconnect".toList],
+       .invoke (.fn nsRoot "connect".toList) [.str (sidName 1)],
+       .send tA (pktConnect nsRoot (sidName 1)),
+       .result (.int 1)] := by rfl
+
+/-- `fresh` under the explicit hypothesis "no session is stored for this transport and
+    namespace": the first `get_session` returns `{}` (and stores it). -/
+theorem fresh_partial {s : Srv} {sid : Sid} {ns : Ns} {t : Eio}
+    (hs : sessSock s sid ns = some t) (hn : sessGet s t ns = none) :
+    step dec cfg s (.getSession sid ns) = (sessSet s t ns (.obj []), [.result (.obj [])]) := by
+  rw [step, hs]
+  simp only [hn]
+
+example : sessSock demo0 (sidName 0) nsRoot = some tA ∧ sessGet demo0 tA nsRoot = none := by decide
+
+/-- The hypothesis holds on every new transport: when engine.io reports a socket that is not in
+    the socket table, nothing is stored for it on any namespace, and that stays so through every
+    input that is not a session operation — so every session id allocated on a new transport
+    starts with an empty session. -/
+theorem fresh_new_transport {s : Srv} (h : Server.WF s) {t : Eio} (ht : t ∉ s.socks)
+    (is : List Input) (hi : ∀ i ∈ is, touchesSess i = false) (ns : Ns) :
+    sessGet (run dec cfg s (.eioConnect t :: is)).1 t ns = none := by
+  have hsess : ∀ (s' : Srv), Server.WF s' → (run dec cfg s' is).1.sess = s'.sess := by
+    clear ht
+    induction is with
+    | nil => intro s' _; rw [run_nil]
+    | cons i is ih =>
+      intro s' hw
+      rw [run_cons]
+      rw [ih (fun j hj => hi j (List.mem_cons_of_mem _ hj)) _ (hw.step dec cfg i)]
+      exact sess_untouched hw (hi i List.mem_cons_self)
+  rw [run_cons]
+  unfold sessGet
+  rw [hsess _ (h.step dec cfg _), step]
+  simp only [Option.map_eq_none_iff, List.find?_eq_none]
+  intro e he hp
+  have := h.sessOpen e he
+  simp only [decide_eq_true_eq] at hp
+  rw [hp.1] at this
+  exact ht this
+
+example : (['C'] : Eio) ∉ demo0.socks := by decide
+
 end Sio.C16
